@@ -18,6 +18,7 @@ import (
 	"os"
 	"path/filepath"
 	"sort"
+	"strconv"
 	"strings"
 )
 
@@ -263,6 +264,315 @@ func (p *pkgInfo) bodyHash(fn, recv string) string {
 	return fmt.Sprintf("%x", sha256.Sum256([]byte(sb.String())))[:16]
 }
 
+// ---- opening books (cmd/bernstein/bernstein/book.go, cmd/sargon/sargon/book.go) -------------------------
+
+// selName returns "pkg.Name" / "Name" of a selector or identifier.
+func selName(e ast.Expr) (string, string) {
+	switch t := e.(type) {
+	case *ast.Ident:
+		return "", t.Name
+	case *ast.SelectorExpr:
+		if x, ok := t.X.(*ast.Ident); ok {
+			return x.Name, t.Sel.Name
+		}
+	}
+	return "", ""
+}
+
+// stringLine resolves an opening line expression to its move strings: a []string{..} literal, possibly wrapped in a
+// conversion such as engine.Line(..), or the name of a package-level var holding one.
+func (p *pkgInfo) stringLine(e ast.Expr, depth int) []string {
+	if depth > 8 {
+		fail("opening line nested too deeply at %v", p.fset.Position(e.Pos()))
+	}
+	switch t := e.(type) {
+	case *ast.ParenExpr:
+		return p.stringLine(t.X, depth+1)
+	case *ast.Ident:
+		return p.stringLine(p.varDecl(t.Name), depth+1)
+	case *ast.CallExpr:
+		if len(t.Args) != 1 {
+			fail("opening line at %v is not a conversion", p.fset.Position(e.Pos()))
+		}
+		return p.stringLine(t.Args[0], depth+1)
+	case *ast.CompositeLit:
+		ret := []string{}
+		for _, el := range t.Elts {
+			bl, ok := el.(*ast.BasicLit)
+			if !ok || bl.Kind != token.STRING {
+				fail("opening line element at %v is not a string literal", p.fset.Position(el.Pos()))
+			}
+			v, err := strconv.Unquote(bl.Value)
+			if err != nil {
+				fail("bad string literal at %v", p.fset.Position(el.Pos()))
+			}
+			ret = append(ret, v)
+		}
+		return ret
+	}
+	fail("unsupported opening line expression at %v", p.fset.Position(e.Pos()))
+	return nil
+}
+
+// newBookLines finds the call <pkg>.NewBook(<list>) in function fn and returns the names (or "" for literals)
+// and the move strings of the lines in the list passed.
+func (p *pkgInfo) newBookLines(fn string) ([]string, [][]string) {
+	fd := p.funcDecl(fn, "")
+	if fd == nil {
+		fail("func %v not found", fn)
+	}
+	var names []string
+	var lines [][]string
+	found := 0
+	ast.Inspect(fd.Body, func(n ast.Node) bool {
+		c, ok := n.(*ast.CallExpr)
+		if !ok {
+			return true
+		}
+		if pk, nm := selName(c.Fun); pk != "engine" || nm != "NewBook" || len(c.Args) != 1 {
+			return true
+		}
+		found++
+		cl, ok := c.Args[0].(*ast.CompositeLit)
+		if !ok {
+			fail("argument of engine.NewBook at %v is not a composite literal", p.fset.Position(c.Pos()))
+		}
+		for _, el := range cl.Elts {
+			_, nm := selName(el)
+			if _, isIdent := el.(*ast.Ident); !isIdent {
+				nm = ""
+			}
+			names = append(names, nm)
+			lines = append(lines, p.stringLine(el, 0))
+		}
+		return true
+	})
+	if found != 1 {
+		fail("expected exactly one engine.NewBook call in %v, found %d", fn, found)
+	}
+	return names, lines
+}
+
+func leanStr(s string) string {
+	var sb strings.Builder
+	sb.WriteByte('"')
+	for _, r := range s {
+		switch {
+		case r == '"' || r == '\\':
+			sb.WriteByte('\\')
+			sb.WriteRune(r)
+		case r < 0x20 || r == 0x7f:
+			fmt.Fprintf(&sb, "\\x%02x", r)
+		default:
+			sb.WriteRune(r)
+		}
+	}
+	sb.WriteByte('"')
+	return sb.String()
+}
+
+func leanStrList(xs []string) string {
+	q := make([]string, len(xs))
+	for i, x := range xs {
+		q[i] = leanStr(x)
+	}
+	return "[" + strings.Join(q, ", ") + "]"
+}
+
+// moveLiterals lists the package-level vars initialised with a board.Move{..} literal, in declaration order:
+// name and the six fields (Type, From, To, Piece, Promotion, Capture; absent = 0), constants resolved in pkg/board.
+func (p *pkgInfo) moveLiterals(b *pkgInfo) ([]string, [][6]string) {
+	var names []string
+	var vals [][6]string
+	idx := map[string]int{"Type": 0, "From": 1, "To": 2, "Piece": 3, "Promotion": 4, "Capture": 5}
+	for _, f := range p.files {
+		for _, d := range f.Decls {
+			g, ok := d.(*ast.GenDecl)
+			if !ok || g.Tok != token.VAR {
+				continue
+			}
+			for _, s := range g.Specs {
+				vs := s.(*ast.ValueSpec)
+				for i, n := range vs.Names {
+					if i >= len(vs.Values) {
+						continue
+					}
+					cl, ok := vs.Values[i].(*ast.CompositeLit)
+					if !ok {
+						continue
+					}
+					if pk, nm := selName(cl.Type); pk != "board" || nm != "Move" {
+						continue
+					}
+					v := [6]string{"0", "0", "0", "0", "0", "0"}
+					for _, el := range cl.Elts {
+						kv, ok := el.(*ast.KeyValueExpr)
+						if !ok {
+							fail("move literal %v: positional fields not supported", n.Name)
+						}
+						_, field := selName(kv.Key)
+						k, ok := idx[field]
+						if !ok {
+							fail("move literal %v: unknown field %v", n.Name, field)
+						}
+						pk, cn := selName(kv.Value)
+						if pk != "board" {
+							fail("move literal %v: field %v is not a board constant", n.Name, field)
+						}
+						v[k] = b.constInt(cn)
+					}
+					names = append(names, n.Name)
+					vals = append(vals, v)
+				}
+			}
+		}
+	}
+	if len(names) == 0 {
+		fail("no board.Move literals found")
+	}
+	return names, vals
+}
+
+// sargonShape reads the shape of sargon.NewBook: the single initial map entry keyed fen.Strip(fen.Initial) and its
+// replies, `response := <default>` and the `if isQueenSideOrKingPawn(m) { response = <other> }` assignment.
+func (p *pkgInfo) sargonShape() (initial []string, deflt, other string) {
+	fd := p.funcDecl("NewBook", "")
+	if fd == nil {
+		fail("sargon.NewBook not found")
+	}
+	maps := 0
+	ast.Inspect(fd.Body, func(n ast.Node) bool {
+		switch t := n.(type) {
+		case *ast.CompositeLit:
+			if _, ok := t.Type.(*ast.MapType); ok {
+				maps++
+				if len(t.Elts) != 1 {
+					fail("sargon.NewBook: expected one initial map entry, found %d", len(t.Elts))
+				}
+				kv := t.Elts[0].(*ast.KeyValueExpr)
+				var sb strings.Builder
+				printer.Fprint(&sb, p.fset, kv.Key)
+				if sb.String() != "fen.Strip(fen.Initial)" {
+					fail("sargon.NewBook: initial key is %v", sb.String())
+				}
+				vl, ok := kv.Value.(*ast.CompositeLit)
+				if !ok {
+					fail("sargon.NewBook: initial replies are not a literal")
+				}
+				for _, el := range vl.Elts {
+					id, ok := el.(*ast.Ident)
+					if !ok {
+						fail("sargon.NewBook: initial reply is not a named move")
+					}
+					initial = append(initial, id.Name)
+				}
+				return false
+			}
+		case *ast.AssignStmt:
+			if len(t.Lhs) == 1 && len(t.Rhs) == 1 {
+				if _, nm := selName(t.Lhs[0]); nm == "response" {
+					id, ok := t.Rhs[0].(*ast.Ident)
+					if !ok {
+						fail("sargon.NewBook: response is not a named move")
+					}
+					if t.Tok == token.DEFINE {
+						if deflt != "" {
+							fail("sargon.NewBook: response defined twice")
+						}
+						deflt = id.Name
+					} else {
+						if other != "" {
+							fail("sargon.NewBook: response assigned twice")
+						}
+						other = id.Name
+					}
+				}
+			}
+		case *ast.IfStmt:
+			if c, ok := t.Cond.(*ast.CallExpr); ok {
+				if _, nm := selName(c.Fun); nm != "isQueenSideOrKingPawn" {
+					fail("sargon.NewBook: unexpected condition %v", nm)
+				}
+			} else {
+				fail("sargon.NewBook: unexpected if condition at %v", p.fset.Position(t.Pos()))
+			}
+		}
+		return true
+	})
+	if maps != 1 || deflt == "" || other == "" {
+		fail("sargon.NewBook: shape not recognised (maps=%d default=%q other=%q)", maps, deflt, other)
+	}
+	return
+}
+
+// sargonFiles reads isQueenSideOrKingPawn: the piece compared with m.Piece and the files of the `return true` case
+// (every other case must return false).
+func (p *pkgInfo) sargonFiles(b *pkgInfo) (piece string, files []string) {
+	fd := p.funcDecl("isQueenSideOrKingPawn", "")
+	if fd == nil {
+		fail("isQueenSideOrKingPawn not found")
+	}
+	ast.Inspect(fd.Body, func(n ast.Node) bool {
+		switch t := n.(type) {
+		case *ast.BinaryExpr:
+			if t.Op == token.NEQ {
+				var sb strings.Builder
+				printer.Fprint(&sb, p.fset, t.X)
+				pk, cn := selName(t.Y)
+				if sb.String() != "m.Piece" || pk != "board" || piece != "" {
+					fail("isQueenSideOrKingPawn: unexpected comparison")
+				}
+				piece = b.constInt(cn)
+			}
+		case *ast.SwitchStmt:
+			var sb strings.Builder
+			printer.Fprint(&sb, p.fset, t.Tag)
+			if sb.String() != "m.From.File()" {
+				fail("isQueenSideOrKingPawn: switch on %v", sb.String())
+			}
+		case *ast.CaseClause:
+			if len(t.Body) != 1 {
+				fail("isQueenSideOrKingPawn: unexpected case body")
+			}
+			rs, ok := t.Body[0].(*ast.ReturnStmt)
+			if !ok || len(rs.Results) != 1 {
+				fail("isQueenSideOrKingPawn: unexpected case body")
+			}
+			_, val := selName(rs.Results[0])
+			if t.List == nil {
+				if val != "false" {
+					fail("isQueenSideOrKingPawn: default returns %v", val)
+				}
+				return true
+			}
+			if val != "true" {
+				fail("isQueenSideOrKingPawn: case returns %v", val)
+			}
+			for _, e := range t.List {
+				pk, cn := selName(e)
+				if pk != "board" {
+					fail("isQueenSideOrKingPawn: case is not a board constant")
+				}
+				files = append(files, b.constInt(cn))
+			}
+		}
+		return true
+	})
+	if piece == "" || len(files) == 0 {
+		fail("isQueenSideOrKingPawn: shape not recognised")
+	}
+	return
+}
+
+func (p *pkgInfo) constString(name string) string {
+	obj := p.pkg.Scope().Lookup(name)
+	c, ok := obj.(*types.Const)
+	if !ok || c.Val().Kind() != constant.String {
+		fail("string constant %v not found", name)
+	}
+	return constant.StringVal(c.Val())
+}
+
 func leanList(xs []string) string { return "[" + strings.Join(xs, ", ") + "]" }
 func leanArr(xs []string) string  { return "#[" + strings.Join(xs, ", ") + "]" }
 func leanPairs(xs [][2]string, ratAsPair bool) string {
@@ -391,6 +701,57 @@ func main() {
 		hs = append(hs, fmt.Sprintf("(\"%s.%s\", \"%s\")", f.recv, f.name, f.p.bodyHash(f.name, f.recv)))
 	}
 	flush("Facts.lean")
+
+	// ---- Gen/Books.lean: the data of the opening books as they are in the source ----
+	fp := load(filepath.Join(*repo, "pkg/board/fen"))
+	en := load(filepath.Join(*repo, "pkg/engine"))
+	be := load(filepath.Join(*repo, "cmd/bernstein/bernstein"))
+	sa := load(filepath.Join(*repo, "cmd/sargon/sargon"))
+	w("/-! GENERATED by /verif/harness/cmd/extract from %s — do not edit. Regenerated on every check. -/", *repo)
+	w("namespace Morlock.Gen")
+	w("")
+	w("-- pkg/board/fen/fen.go")
+	w("def fenInitial : String := %s", leanStr(fp.constString("Initial")))
+	w("")
+	w("-- cmd/bernstein/bernstein/book.go: the list passed to engine.NewBook (names of the vars, \"\" for an inline literal), resolved")
+	bnames, blines := be.newBookLines("NewBook")
+	w("def bernsteinLineNames : List String := %s", leanStrList(bnames))
+	{
+		var ls []string
+		for _, l := range blines {
+			ls = append(ls, leanStrList(l))
+		}
+		w("def bernsteinLines : List (List String) := [%s]", strings.Join(ls, ", "))
+	}
+	w("")
+	w("-- cmd/sargon/sargon/book.go: the move literals (name, Type, From, To, Piece, Promotion, Capture; absent field = 0)")
+	snames, svals := sa.moveLiterals(b)
+	{
+		var ls []string
+		for i, n := range snames {
+			v := svals[i]
+			ls = append(ls, fmt.Sprintf("(%s, %s, %s, %s, %s, %s, %s)", leanStr(n), v[0], v[1], v[2], v[3], v[4], v[5]))
+		}
+		w("def sargonMoves : List (String × Nat × Nat × Nat × Nat × Nat × Nat) := [%s]", strings.Join(ls, ", "))
+	}
+	sinit, sdef, soth := sa.sargonShape()
+	w("-- sargon.NewBook: replies of the initial position; `response := ..`; `if isQueenSideOrKingPawn(m) { response = .. }`")
+	w("def sargonInitialReplies : List String := %s", leanStrList(sinit))
+	w("def sargonDefaultResponse : String := %s", leanStr(sdef))
+	w("def sargonFileResponse : String := %s", leanStr(soth))
+	spiece, sfiles := sa.sargonFiles(b)
+	w("-- isQueenSideOrKingPawn: `m.Piece != <piece>` returns false; the files of the `return true` case")
+	w("def sargonFilePiece : Nat := %s", spiece)
+	w("def sargonFiles : List Nat := %s", leanList(sfiles))
+	flush("Books.lean")
+	for _, f := range []struct {
+		tag string
+		f   fn
+	}{{"engine", fn{en, "NewBook", ""}}, {"engine", fn{en, "Find", "book"}}, {"fen", fn{fp, "Strip", ""}}, {"fen", fn{fp, "Encode", ""}},
+		{"fen", fn{fp, "Decode", ""}}, {"sargon", fn{sa, "NewBook", ""}}, {"sargon", fn{sa, "Find", "Book"}},
+		{"sargon", fn{sa, "isQueenSideOrKingPawn", ""}}, {"bernstein", fn{be, "NewBook", ""}}} {
+		hs = append(hs, fmt.Sprintf("(\"%s:%s.%s\", \"%s\")", f.tag, f.f.recv, f.f.name, f.f.p.bodyHash(f.f.name, f.f.recv)))
+	}
 	if *hashes != "" {
 		js := "{\n" + strings.ReplaceAll(strings.ReplaceAll(strings.ReplaceAll(strings.Join(hs, ",\n"), "(\"", " \""), "\", \"", "\": \""), "\")", "\"") + "\n}\n"
 		_ = os.WriteFile(*hashes, []byte(js), 0o644)
